@@ -764,6 +764,10 @@ impl Router {
                         reasons.push(UnsubAckReason::Success);
                         self.scheduler.untrack(id, filter);
                         self.datalog.remove_waiters_for_id(id, filter);
+                        // a publish earlier in this batch may already have moved the parked
+                        // request to the notifications, from where it would be tracked again
+                        self.notifications
+                            .retain(|(i, request)| !(*i == id && &request.filter == filter));
                     }
 
                     let unsuback = UnsubAck { pkid, reasons };
